@@ -53,3 +53,6 @@ Qed.
 
 Lemma oeqb_spec_Qc : forall x y : Qc, oeqb OQc x y = true <-> x = y.
 Proof. intros x y. cbn. split; [apply Qc_eq_bool_correct|intros ->]. unfold Qc_eq_bool. destruct (Qc_eq_dec y y); congruence. Qed.
+(* the polarisation premise of C03_inertia_matrix_is_sum_of_JT_I_J is satisfiable *)
+Lemma two_neq0_Qc : o2 OQc <> o0 OQc.
+Proof. unfold o2. cbn. intro H. discriminate H. Qed.
